@@ -132,11 +132,19 @@ def load_bc_block():
 
 
 def run_bc(code, solve_for, l, R, rhob):
-    bc = CArr((15,), 'boundary_conditions')
-    env = {'solve_for': solve_for, 'bc_pointer': Ptr(bc, 0), 'degree_l_dbl': Fr(l), 'radius_planet_to_use': R, 'bulk_density_to_use': rhob, 'max_num_solutions': 5, 'num_ytypes': 1, 'len': len}
-    env.update(loader.base_ns())
-    exec(code, env)
-    return bc.data, env.get('solve_for'), env.get('num_ytypes')
+    from symx.pyx2py import Ref
+    last = None
+    for wrap in (Ref, lambda x: x):          # scalars whose address is taken elsewhere in cf_radial_solver are transliterated as cells (`.v`)
+        bc = CArr((15,), 'boundary_conditions')
+        env = {'solve_for': solve_for, 'bc_pointer': Ptr(bc, 0), 'degree_l_dbl': Fr(l), 'radius_planet_to_use': wrap(R), 'bulk_density_to_use': wrap(rhob), 'max_num_solutions': 5,
+               'num_ytypes': 1, 'len': len}
+        env.update(loader.base_ns())
+        try:
+            exec(code, env)
+            return bc.data, env.get('solve_for'), env.get('num_ytypes')
+        except (AttributeError, TypeError) as e:
+            last = e
+    raise last
 
 
 def job_bc_and_love(l):
